@@ -192,9 +192,17 @@ class Check:
             if rc == 2:
                 raise HarnessError("replay harness error on %s: %s" % (p, out[-1500:]))
             if rc != 0:
-                ok, fails, _ = self.confirm(driver, rec, extra)
+                ok, fails, last = self.confirm(driver, rec, extra)
                 if ok:
-                    self.violations.append((rec, p))
+                    # report what fails now (the saved record describes the failure it was saved for)
+                    now = None
+                    for line in last.splitlines():
+                        if line.startswith("REPLAY-FAIL {"):
+                            try:
+                                now = json.loads(line[len("REPLAY-FAIL "):])
+                            except ValueError:
+                                now = None
+                    self.violations.append((now or rec, p))
         return n
 
     # ------------------------------------------------------------------ known findings
